@@ -125,6 +125,15 @@ class Unit:
                     with open(p) as fh:
                         inc = fh.read()
                     self.includes.append(arg)
+                    # a shim may bring its own extraction entries (shims/X.toml next to shims/X.rs): real types the stand-ins refer to
+                    side = os.path.splitext(p)[0] + ".toml"
+                    if os.path.exists(side):
+                        with open(side, "rb") as fh:
+                            ssc = tomllib.load(fh)
+                        for f in ssc.get("item", []):
+                            item_specs.setdefault(f.get("id", f["path"]), f)
+                        for f in ssc.get("fn", []):
+                            fn_specs.setdefault(f.get("id", f["path"]), f)
                     out_lines.append(f"// ---- begin include {arg}")
                     process(inc, depth + 1)
                     out_lines.append(f"// ---- end include {arg}")
